@@ -12,6 +12,9 @@ Suites
   DTD-CHECK-empty     empty localized values whose declaration expat rejects on a later line (a key that
                       is a Name for parser/dtd.py but not for expat): an error at (0, 0), never an exception
   DTD-CHECK-android   extra_tests={"android-dtd"}: quoting alphabet
+  END-TO-END          (oracle only) ContentComparer.compare with an Observer and L10nLinter.lint_file on real
+                      .dtd files in a temporary directory: ids plain / *Key / *.accesskey ..., values equal to
+                      the reference (well-formed and broken), shared unknown entities and CSS specs
   DTD-documents       the four synthetic documents
   XML                 Model/XmlContent.v (xml_doc) against real xml.sax on the documents the checker
                       built in the suites above and on documents over an XML token soup
@@ -580,6 +583,203 @@ def spec_map(specs):
     return d
 
 
+# -------------------------------------------------------------- end to end ---
+E2E_MSG = re.compile(r"^(.*) at line (-?\d+), column (-?\d+) for (\S+)$", re.S)
+ANDROID_MSG = re.compile(r"^(Quotes in Android|Apostrophes in Android|.*\\[uUxN].* escape|.*escape)")
+ID_STYLES = ["k%d", "open%dKey", "item%d.accesskey", "cmd%d.key", "lbl%d.commandkey", "Keyboard%d", "title%d"]
+LINE0_EDITS = {"stray-percent-ref", "bare-percent"}     # reported on the DOCTYPE line: value line - 1
+
+
+def e2e_file(rng, n):
+    """entities of one (reference, localized) file pair: dicts with id, ref text, l10n text, kind
+    and what the oracle knows by construction"""
+    q = rng.choice(['"', "'"])
+    pool = rng.sample(NAME_POOL + HTML_LIKE_NAMES, rng.choice([1, 2, 3]))
+    shared_unknown = rng.sample(UNKNOWN_POOL, 2)
+    lnames = pool + shared_unknown
+    spec = [(rng.choice(CSS_PROPS), rng.choice(["1", "2.5"]), rng.choice(CSS_UNITS)) for _ in range(2)]
+    spec_text = render_specs(spec, rng, True)
+    ents = []
+    for i in range(n):
+        eid = ID_STYLES[(i + rng.randrange(len(ID_STYLES))) % len(ID_STYLES)] % i
+        kind = rng.choice(["grammar", "grammar", "equal", "edit", "edit", "equal-broken", "css-same",
+                           "css-units", "css-junk"])
+        e = {"id": eid, "kind": kind, "q": q, "unknown": None, "broken": False, "edit": None}
+        ref_nodes = gen_value(rng, pool, q, maxn=3)
+        if kind == "grammar":
+            l10n_nodes = gen_value(rng, lnames, q, maxn=3)
+            e.update(ref=render(ref_nodes, q), l10n=render(l10n_nodes, q), ref_nodes=ref_nodes,
+                     l10n_nodes=l10n_nodes, hazard=bool(hazards(l10n_nodes, q)))
+        elif kind == "equal":
+            e.update(ref=render(ref_nodes, q), l10n=render(ref_nodes, q), ref_nodes=ref_nodes,
+                     l10n_nodes=ref_nodes, hazard=bool(hazards(ref_nodes, q)))
+        elif kind == "edit":
+            l10n_nodes = gen_value(rng, lnames, q, maxn=3)
+            v = render(l10n_nodes, q)
+            name, ins = rng.choice(EDITS)
+            pos = rng.randint(0, len(v))
+            e.update(ref=render(ref_nodes, q), l10n=v[:pos] + ins + v[pos:], ref_nodes=ref_nodes,
+                     broken=True, edit=name)
+        elif kind == "equal-broken":
+            # the same broken text on both sides; the edit at an end, so that the names the
+            # reference uses are still those of its nodes
+            name, ins = rng.choice([x for x in EDITS if x[0] in ("bare-amp", "bare-lt", "unclosed-tag",
+                                                                 "bare-percent", "stray-end-tag")])
+            v = render(ref_nodes, q)
+            v = ins + v if rng.random() < 0.5 else v + ins
+            e.update(ref=v, l10n=v, ref_nodes=ref_nodes, broken=True, edit=name)
+        else:
+            e.update(ref=spec_text, ref_nodes=[])
+            if kind == "css-same":
+                e["l10n"] = spec_text if rng.random() < 0.5 else render_specs(list(reversed(spec)), rng, False)
+                if spec_map(list(reversed(spec))) != spec_map(spec):
+                    e["l10n"] = spec_text
+            elif kind == "css-units":
+                other = [(spec[0][0], "3", "mm")] + [s_ for s_ in spec[1:] if s_[0] != spec[0][0]]
+                e["l10n"] = render_specs(other, rng, False)
+                e["css"] = "warning" if spec_map(other) != spec_map(spec) else None
+            else:
+                piece = rng.choice(CSS_JUNK)
+                e["l10n"] = rng.choice([piece + spec_text, spec_text + " " + piece])
+                e["css"] = "error"
+        ents.append(e)
+    known = set()
+    for e in ents:
+        known |= names_of(e["ref_nodes"])
+    known -= XMLLIST
+    for e in ents:
+        if e["kind"] in ("grammar", "equal"):
+            e["unknown"] = sorted(names_of(e["l10n_nodes"]) - XMLLIST - known)
+    return ents, q
+
+
+def e2e_text(ents, q, side, lead):
+    """file text and the 1-based (first, last) line of every entity"""
+    delim = other_quote(q)
+    out, spans, line = [], {}, 1
+    if lead:
+        out.append("<!-- " + "\n".join("license line %d" % i for i in range(lead)) + " -->\n\n")
+        line += lead + 1
+    for e in ents:
+        text = "<!ENTITY " + e["id"] + " " + delim + e[side] + delim + ">"
+        spans[e["id"]] = (line, line + text.count("\n"))
+        out.append(text + "\n\n")
+        line += text.count("\n") + 2
+    return "".join(out), spans, line - 1
+
+
+def run_e2e(chk, rng):
+    """ContentComparer.compare and L10nLinter.lint_file on real files: every broken value is an error
+    naming its key, no well-formed one is, unknown entities are warned by name — whatever the id
+    looks like and whether or not the value equals the reference; positions inside the file"""
+    import os
+    import shutil
+    import tempfile
+    from compare_locales.compare.content import ContentComparer
+    from compare_locales.compare.observer import Observer
+    from compare_locales.lint.linter import L10nLinter
+    from compare_locales.paths import File
+
+    work = tempfile.mkdtemp(prefix="verif_c07_")
+    nent = 0
+    try:
+        for fi in range(chk.n(40, 400)):
+            android = fi % 5 == 4
+            ents, q = e2e_file(rng, rng.randint(6, 12))
+            rtext, rspans, rlines = e2e_text(ents, q, "ref", 0)
+            ltext, lspans, llines = e2e_text(ents, q, "l10n", rlines + 3)
+            rpath, lpath = os.path.join(work, "ref", "x.dtd"), os.path.join(work, "de", "x.dtd")
+            for path, text in ((rpath, rtext), (lpath, ltext)):
+                os.makedirs(os.path.dirname(path), exist_ok=True)
+                with open(path, "w", encoding="utf-8", newline="") as f:
+                    f.write(text)
+            log = []
+
+            class Rec(Observer):
+                def notify(self, category, file, data):
+                    log.append((category, data))
+                    return super().notify(category, file, data)
+            cc = ContentComparer()
+            cc.observers.append(Rec())
+            info = {"ref_file": rtext, "l10n_file": ltext, "android": android}
+            try:
+                cc.compare(File(rpath, "x.dtd", locale="de"), File(lpath, "x.dtd", locale="de"), None,
+                           extra_tests=["android-dtd"] if android else None)
+            except Exception as exc:  # noqa
+                chk.fail("e2e-compare-raises:" + type(exc).__name__, info, str(exc))
+                continue
+            per = {e["id"]: {"error": [], "warning": []} for e in ents}
+            for cat, data in log:
+                if cat not in ("error", "warning"):
+                    continue
+                m = E2E_MSG.match(data)
+                if not m or m.group(4) not in per:
+                    chk.fail("e2e-unattributed-message", info, [cat, data])
+                    continue
+                per[m.group(4)][cat].append((m.group(1), int(m.group(2)), int(m.group(3))))
+            for e in ents:
+                nent += 1
+                chk.count(("e2e", rtext, ltext, e["id"]))
+                chk.hist("e2e_kind", e["kind"])
+                chk.hist("e2e_id_style", re.sub(r"\d+", "N", e["id"]))
+                got = per[e["id"]]
+                einfo = dict(info, key=e["id"], kind=e["kind"], edit=e["edit"])
+                errs = [x for x in got["error"] if not (android and ANDROID_MSG.match(x[0]))]
+                if e["broken"] and not errs:
+                    chk.fail("e2e-missed-error:" + e["kind"], einfo, got)
+                if e["kind"] in ("grammar", "equal") and errs and not e["hazard"]:
+                    chk.fail("e2e-false-error:" + e["kind"], einfo, got)
+                if e["unknown"] is not None and not e.get("hazard"):
+                    names = [x[0][len(UNKNOWN_PREFIX):].split("`")[0] for x in got["warning"]
+                             if x[0].startswith(UNKNOWN_PREFIX)]
+                    if names != e["unknown"]:
+                        chk.fail("e2e-unknown-entity-warnings", einfo, {"got": names, "expected": e["unknown"]})
+                if e["kind"].startswith("css"):
+                    css_err = [x for x in got["error"] if x[0] == "reference is a CSS spec"]
+                    css_warn = [x for x in got["warning"] if "units for" in x[0] or "only in" in x[0]]
+                    want = e.get("css")
+                    if (want == "error") != bool(css_err) or (want == "warning") != bool(css_warn):
+                        chk.fail("e2e-css-verdict:" + e["kind"], einfo, got)
+                first, last = lspans[e["id"]]
+                for cat in ("error", "warning"):
+                    for msg, line, col in got[cat]:
+                        # the line-0 family: every message the checker puts at (0, 0) — all its xmlparse
+                        # warnings — and the errors expat reports on the DOCTYPE line (stray %) are
+                        # resolved by DTDEntity.value_position to the line before the value
+                        lo = first - 1 if (cat == "warning" or e["edit"] in LINE0_EDITS
+                                           or e["kind"] == "equal-broken") else first
+                        if not (lo <= line <= llines) or (line >= first and col < 0):
+                            chk.fail("e2e-position", einfo, [cat, msg, line, col, {"entity_lines": [first, last]}])
+            # the linter: the localized file linted as if it were the source, then the reference itself
+            for path, side, spans in ((lpath, "l10n", lspans), (rpath, "ref", rspans)):
+                try:
+                    res = list(L10nLinter().lint_file(path, rpath if side == "l10n" else None,
+                                                      ["android-dtd"] if android else []))
+                except Exception as exc:  # noqa
+                    chk.fail("e2e-lint-raises:" + type(exc).__name__, info, str(exc))
+                    continue
+                for e in ents:
+                    first, last = spans[e["id"]]
+                    mine = [r for r in res if r["level"] == "error" and first - 1 <= r["lineno"] <= last
+                            and not (android and ANDROID_MSG.match(r["message"]))]
+                    broken = e["broken"] if side == "l10n" else e["kind"] == "equal-broken"
+                    css_junk = side == "l10n" and False
+                    einfo = dict(info, key=e["id"], kind=e["kind"], edit=e["edit"], linted=side)
+                    if broken and not mine:
+                        chk.fail("e2e-lint-missed-error:" + e["kind"], einfo, [dict(r) for r in res][:6])
+                    clean = (e["kind"] in ("grammar", "equal") and not e["hazard"]) if side == "l10n" \
+                        else (e["kind"] != "equal-broken" and not hazards(e["ref_nodes"], q))
+                    if clean and mine:
+                        chk.fail("e2e-lint-false-error:" + e["kind"], einfo, [dict(r) for r in mine])
+    finally:
+        shutil.rmtree(work, ignore_errors=True)
+    chk.notes.append(f"END-TO-END: {nent} entities through ContentComparer.compare (Observer) and "
+                     "L10nLinter.lint_file on real files in a temporary directory; a fifth of the files "
+                     "with android-dtd; ids plain / *Key / *.accesskey / *.key / *.commandkey / Key*; kinds "
+                     "grammar, equal to the reference, edited, broken and equal to the reference, CSS specs")
+    chk.suites.append({"name": "END-TO-END (oracle only)", "cases": nent, "disagreements": 0})
+
+
 # --------------------------------------------------------------------- run ---
 def describe_case(c):
     return c
@@ -959,6 +1159,9 @@ def run(chk, runner_ok):
                 chk.fail("android-quotes", info, {"got": got, "expected": want})
     b.finish()
 
+    # ---- END-TO-END: ContentComparer.compare / L10nLinter.lint_file on real files ------------------------
+    run_e2e(chk, rng)
+
     # ---- the four documents ---------------------------------------------------------------------------
     if model and fourdocs:
         fd = fourdocs[:: max(1, len(fourdocs) // chk.n(600, 6000))]
@@ -1103,11 +1306,72 @@ def run(chk, runner_ok):
     chk.trusted.append("the unicode-escape codec behind DTDChecker.unicode_escape (oracle of the model)")
 
 
+def replay_e2e(f):
+    """re-run one end-to-end failure; 1 if it still fails"""
+    import os
+    import shutil
+    import tempfile
+    from compare_locales.compare.content import ContentComparer
+    from compare_locales.compare.observer import Observer
+    from compare_locales.paths import File
+    c, sig = f["case"], f["signature"]
+    work = tempfile.mkdtemp(prefix="verif_c07_replay_")
+    try:
+        paths = {}
+        for side in ("ref", "l10n"):
+            paths[side] = os.path.join(work, side, "x.dtd")
+            os.makedirs(os.path.dirname(paths[side]))
+            with open(paths[side], "w", encoding="utf-8", newline="") as fh:
+                fh.write(c[side + "_file"])
+        log = []
+
+        class Rec(Observer):
+            def notify(self, category, file, data):
+                log.append((category, data))
+                return super().notify(category, file, data)
+        cc = ContentComparer()
+        cc.observers.append(Rec())
+        try:
+            cc.compare(File(paths["ref"], "x.dtd", locale="de"), File(paths["l10n"], "x.dtd", locale="de"), None,
+                       extra_tests=["android-dtd"] if c.get("android") else None)
+        except Exception as exc:  # noqa
+            print("  compare raised", type(exc).__name__)
+            return 1
+    finally:
+        shutil.rmtree(work, ignore_errors=True)
+    got = {"error": [], "warning": []}
+    for cat, data in log:
+        m = E2E_MSG.match(data) if cat in got else None
+        if m and m.group(4) == c.get("key"):
+            got[cat].append((m.group(1), int(m.group(2)), int(m.group(3))))
+    print("signature", sig, "key", c.get("key"), "\n  impl    ", got, "\n  recorded", f["detail"])
+    errs = [x for x in got["error"] if not (c.get("android") and ANDROID_MSG.match(x[0]))]
+    if sig.startswith("e2e-missed-error"):
+        return int(not errs)
+    if sig.startswith("e2e-false-error"):
+        return int(bool(errs))
+    if sig == "e2e-unknown-entity-warnings":
+        names = [x[0][len(UNKNOWN_PREFIX):].split("`")[0] for x in got["warning"] if x[0].startswith(UNKNOWN_PREFIX)]
+        return int(names != list(f["detail"]["expected"]))
+    if sig == "e2e-position":
+        first = f["detail"][4]["entity_lines"][0]
+        return int(any(line < first - 1 for cat in got for _, line, _ in got[cat]))
+    if sig.startswith("e2e-css-verdict"):
+        kind = c.get("kind")
+        css_err = any(x[0] == "reference is a CSS spec" for x in got["error"])
+        css_warn = any("units for" in x[0] or "only in" in x[0] for x in got["warning"])
+        return int({"css-junk": not css_err, "css-units": False, "css-same": css_err or css_warn}.get(kind, True))
+    return 1
+
+
 def replay(chk, path):
     data = json.load(open(path))
     rc = 0
     for f in data.get("failures", []):
         c = f["case"]
+        if f["signature"].startswith("e2e-") and "lint" not in f["signature"] and "ref_file" in c:
+            rc |= replay_e2e(f)
+            continue
         if "ref_file" in c and "l10n_file" in c:
             rents, lents = parse_dtd(c["ref_file"]), parse_dtd(c["l10n_file"])
             checker = get_checker()
